@@ -90,6 +90,10 @@ type Node struct {
 	Beh   string     `json:"beh,omitempty"`  // ok | fail | panic | item | rerun | cancel | convpanic | prefail | postfail (the node's state pre / post handler returns Err; the body succeeds)
 	Err   *ErrSpec   `json:"err,omitempty"`
 	ID    int        `json:"id,omitempty"` // panic payload
+	// Pos: where the fault sits in the node's output stream (item: 0 = [chunk, error item], 1 = [error item,
+	// chunk], 2 = [error item] alone; convpanic: 0 = the convert function panics at the first chunk, 1 = at
+	// the second of two).  Whoever reads the stream to its end finds the same: not an input of the model.
+	Pos   int        `json:"pos,omitempty"`
 	Sub   *Graph     `json:"sub,omitempty"`
 	Tools []ToolSpec `json:"tools,omitempty"`
 }
@@ -115,6 +119,8 @@ type Case struct {
 	CancelBefore bool     `json:"cancel_before,omitempty"` // context already cancelled at the call
 	Deadline     bool     `json:"deadline,omitempty"`      // ... because its deadline has passed (ctx.Err() is context.DeadlineExceeded, not context.Canceled)
 	InErr        *ErrSpec `json:"in_err,omitempty"`        // collect/transform: the input stream carries this error item
+	InPos        int      `json:"in_pos,omitempty"`        // ... 0 = after the chunk, 1 = before it, 2 = alone
+	Twice        bool     `json:"twice,omitempty"`         // the compiled runnable is called a second time after the first call has returned (same input, fresh context): whatever the first run left behind — tasks still in flight after a failure, recovered panics — must not show in the second
 	RtMax        int      `json:"rt_max,omitempty"`        // call option compose.WithRuntimeMaxSteps (top graph in Pregel mode only): overrides the compiled limit of the top graph, not of nested graphs
 	Fwd          *FwdSpec `json:"fwd,omitempty"`           // a forwarder case (fwd.go): G / Par unused
 }
@@ -234,12 +240,18 @@ func pathOf(prefix []string, key string) []string {
 // boom panics with payload id from a call stack 0-44 frames deep (user code panics anywhere; the
 // depth decides how long the recovering side spends in debug.Stack).  The panic VALUE is, by
 // id%3, the string "boom:<id>", an error value with that text, or a runtime error (index <id> of
-// an empty slice) — what nil maps / bad indices in user code raise.
+// an empty slice) — what nil maps / bad indices in user code raise; and for one id in eight a nil
+// error value (panic(err) with err == nil: recover() returns nil for it unless the main module's go
+// directive is 1.21 or later — the harness's is 1.18 like eino's own): F-C13f.
 func boom(id int) {
 	var empty []int
 	var down func(k int)
 	down = func(k int) {
 		if k <= 0 {
+			if nilPanic(id) {
+				var err error
+				panic(err)
+			}
 			switch id % 3 {
 			case 1:
 				panic(fmt.Errorf("boom:%d", id))
@@ -253,6 +265,20 @@ func boom(id int) {
 	down((id * 7) % 45)
 }
 
+// nilPanic: the panic with this id has a nil value; it carries no id, its payload in the model (and
+// what the hook reports for it) is nilPayload.
+func nilPanic(id int) bool { return id%8 == 5 }
+
+const nilPayload = 999998
+
+// pay: the payload of the panic with this id as the observer can read it back.
+func pay(id int) int {
+	if nilPanic(id) {
+		return nilPayload
+	}
+	return id
+}
+
 // payloadOf reads the id back from a recovered panic value (-2: not one of the harness's).
 func payloadOf(pi any) int {
 	var s string
@@ -263,6 +289,9 @@ func payloadOf(pi any) int {
 		s = v.Error()
 	default:
 		return -2
+	}
+	if strings.HasPrefix(s, "panic called with nil argument") {
+		return nilPayload
 	}
 	if m := reBoom.FindStringSubmatch(s); m != nil {
 		n, _ := strconv.Atoi(m[1])
@@ -289,7 +318,10 @@ func callTime(e *env, n *Node, path []string) error {
 		return compose.InterruptAndRerun
 	case "cancel":
 		e.rec(path, "cancel")
-		e.cancel()
+		e.mu.Lock()
+		cancel := e.cancel
+		e.mu.Unlock()
+		cancel()
 		return nil
 	case "prefail", "postfail": // the body itself succeeds (the handler logs its own failure)
 		e.rec(path, "ok")
@@ -352,11 +384,31 @@ func lambdaOf(e *env, n *Node, path []string) *compose.Lambda {
 			switch n.Beh {
 			case "item":
 				sr, sw := schema.Pipe[M](2)
-				sw.Send(out, nil)
-				sw.Send(nil, n.Err.mk())
+				switch n.Pos {
+				case 1:
+					sw.Send(nil, n.Err.mk())
+					sw.Send(out, nil)
+				case 2:
+					sw.Send(nil, n.Err.mk())
+				default:
+					sw.Send(out, nil)
+					sw.Send(nil, n.Err.mk())
+				}
 				sw.Close()
 				return sr, nil
 			case "convpanic":
+				if n.Pos == 1 {
+					first := true
+					src := schema.StreamReaderFromArray([]M{out, {strings.Join(path, "/") + "#2": "v"}})
+					return schema.StreamReaderWithConvert(src, func(m M) (M, error) {
+						if first {
+							first = false
+							return m, nil
+						}
+						boom(n.ID)
+						return nil, nil
+					}), nil
+				}
 				src := schema.StreamReaderFromArray([]M{out})
 				return schema.StreamReaderWithConvert(src, func(m M) (M, error) {
 					boom(n.ID)
@@ -792,8 +844,16 @@ func inputStream(c *Case) *schema.StreamReader[M] {
 		return schema.StreamReaderFromArray([]M{{"in": "x"}})
 	}
 	sr, sw := schema.Pipe[M](2)
-	sw.Send(M{"in": "x"}, nil)
-	sw.Send(nil, c.InErr.mk())
+	switch c.InPos {
+	case 1:
+		sw.Send(nil, c.InErr.mk())
+		sw.Send(M{"in": "x"}, nil)
+	case 2:
+		sw.Send(nil, c.InErr.mk())
+	default:
+		sw.Send(M{"in": "x"}, nil)
+		sw.Send(nil, c.InErr.mk())
+	}
 	sw.Close()
 	return sr
 }
@@ -853,38 +913,63 @@ func schedSensitive(c *Case) int {
 // runImpl runs the case 1 + schedSensitive(c) times (fresh graph each time) and returns the
 // distinct observations, the first run's first.
 func runImpl(c *Case) []Obs {
-	first := runOnce(c)
+	first, again := runOnce(c)
 	all := []Obs{first}
 	if first.Class == "hang" || first.Class == "build" {
 		return all
 	}
 	seen := map[string]bool{first.coq(): true}
-	for k := schedSensitive(c); k > 0; k-- {
-		o := runOnce(c)
+	add := func(o *Obs) bool {
+		if o == nil {
+			return true
+		}
 		if key := o.coq(); !seen[key] {
 			seen[key] = true
-			all = append(all, o)
+			all = append(all, *o)
 		}
-		if o.Class == "hang" {
+		return o.Class != "hang"
+	}
+	if !add(again) {
+		return all
+	}
+	for k := schedSensitive(c); k > 0; k-- {
+		o, o2 := runOnce(c)
+		if !add(&o) || !add(o2) {
 			break
 		}
 	}
 	return all
 }
 
-func runOnce(c *Case) Obs {
+// runOnce builds and compiles the graph of the case and calls it; with c.Twice the same compiled
+// runnable is called again once the first call has returned (second result: the extra observation).
+func runOnce(c *Case) (Obs, *Obs) {
 	e := &env{}
-	ctx, cancel := context.WithCancel(context.Background())
-	defer cancel()
-	e.cancel = cancel
 	cg, err := build(e, c.G, nil)
 	if err != nil {
-		return Obs{Class: "build", Info: err.Error()}
+		return Obs{Class: "build", Info: err.Error()}, nil
 	}
-	r, err := cg.Compile(ctx, compileOpts(c.G)...)
+	r, err := cg.Compile(context.Background(), compileOpts(c.G)...)
 	if err != nil {
-		return Obs{Class: "build", Info: err.Error()}
+		return Obs{Class: "build", Info: err.Error()}, nil
 	}
+	first := callOnce(c, e, r)
+	if !c.Twice || first.Class == "hang" {
+		return first, nil
+	}
+	e.mu.Lock()
+	e.log = nil // (a task of the first run that is still in flight may add to the second run's log: it only names bodies that fail in every run)
+	e.mu.Unlock()
+	second := callOnce(c, e, r)
+	return first, &second
+}
+
+func callOnce(c *Case, e *env, r compose.Runnable[M, M]) Obs {
+	ctx, cancel := context.WithCancel(context.Background())
+	defer cancel()
+	e.mu.Lock()
+	e.cancel = cancel
+	e.mu.Unlock()
 	if c.CancelBefore {
 		if c.Deadline {
 			var cancelD context.CancelFunc
